@@ -61,6 +61,34 @@ type c13Env struct {
 	// per history
 	nameCtr int      // name tag of the next market creation
 	forced  []string // operation kinds that must be generated next, in order
+	freed   []c13Freed // (market, external id) pairs that some open order carried earlier and none carries now
+	xrMkt   uint32     // market of the scripted external-id re-use sequence
+}
+
+type c13Freed struct {
+	market uint32
+	ext    string
+}
+
+// noteFreed records the external ids that were carried before a step and are carried no more.
+func (e *c13Env) noteFreed(before, after []c13Order) {
+	for _, b := range before {
+		if b.ext == "" {
+			continue
+		}
+		still := false
+		for _, a := range after {
+			if a.market == b.market && a.ext == b.ext {
+				still = true
+			}
+		}
+		if !still {
+			e.freed = append(e.freed, c13Freed{b.market, b.ext})
+			if len(e.freed) > 6 {
+				e.freed = e.freed[1:]
+			}
+		}
+	}
 }
 
 // c13Coins prints sdk.Coins (in the order given) as a Coq [coins] term.
@@ -729,6 +757,16 @@ func TestC13(t *testing.T) {
 		e.markets = nil
 		e.nameCtr = 0
 		e.forced = []string{"mcreate-auto", "mcreate-auto"}
+		e.freed = nil
+		if hi%6 == 2 || hi%6 == 5 {
+			// an external id is given up (changed or cleared, the order then cancelled or not)
+			// and taken again by ANOTHER order of the same market, by creation and by set-external-id
+			e.forced = append(e.forced, "xr-create", "xr-change")
+			if hi%12 >= 6 {
+				e.forced = append(e.forced, "xr-cancel")
+			}
+			e.forced = append(e.forced, "xr-create2", "xr-create3", "xr-change2", "xr-set")
+		}
 		if hi%6 == 0 {
 			// shapes that must occur in every run: an external id of exactly 100 bytes, a source
 			// with an empty-external-id payment next to another one, a 100-byte payment id
@@ -776,7 +814,9 @@ func TestC13(t *testing.T) {
 			// decide on a checkpoint before observing so that its mismatch count is included
 			doCp := si >= 2 && (si == nSteps-1 || everyStep || r.Intn(5) == 0)
 			var obsTerm string
+			ordersBefore := view.orders
 			obsTerm, view = e.observe(ctx, maxID, &mism)
+			e.noteFreed(ordersBefore, view.orders)
 			if ok && kind == "CMarketCreate" {
 				// the id handed out = the market id that was not listed before
 				for _, m := range view.markets {
@@ -901,6 +941,11 @@ func (e *c13Env) genOrderPayOp(ctx sdk.Context, view c13View, maxID uint64) (str
 	switch {
 	case k < 38: // create ask / bid
 		o := c13Order{bid: r.Intn(2) == 0, market: e.markets[r.Intn(len(e.markets))], owner: pickOwner().String(), asset: c13Assets[r.Intn(len(c13Assets))], amount: int64(r.Intn(12) + 1), ext: pickExt()}
+		if len(e.freed) > 0 && r.Intn(4) == 0 { // an external id that was given up earlier
+			f := e.freed[r.Intn(len(e.freed))]
+			o.market, o.ext = f.market, f.ext
+			e.w.Count("reuse_attempts_create")
+		}
 		switch r.Intn(25) {
 		case 0:
 			o.ext = strings.Repeat("e", 101)
@@ -942,6 +987,16 @@ func (e *c13Env) genOrderPayOp(ctx sdk.Context, view c13View, maxID uint64) (str
 		x := pickExt()
 		if r.Intn(30) == 0 {
 			x = strings.Repeat("g", 101)
+		}
+		if len(e.freed) > 0 && r.Intn(3) == 0 { // give an order an external id that was given up earlier
+			f := e.freed[r.Intn(len(e.freed))]
+			for _, o := range view.orders {
+				if o.market == f.market && o.ext != f.ext {
+					id, m, x = o.id, f.market, f.ext
+					e.w.Count("reuse_attempts_set")
+					break
+				}
+			}
 		}
 		return fmt.Sprintf("OSetExt %d %d %s", m, id, c13Str(x)), fmt.Sprintf("set-ext m=%d id=%d %q", m, id, c13Short(x)), func() error {
 			return e.handle(ctx, &exchange.MsgMarketSetOrderExternalIDRequest{Admin: e.admin.String(), MarketId: m, OrderId: id, ExternalId: x})
@@ -1166,12 +1221,8 @@ func (e *c13Env) genForced(ctx sdk.Context, view c13View, f string) (string, str
 		msg := &exchange.MsgCreatePaymentRequest{Payment: exchange.Payment{Source: p.src, SourceAmount: coins(p.amount), Target: p.tgt, ExternalId: p.ext}}
 		return "XO (OPayCreate " + e.payTerm(p) + ")", fmt.Sprintf("pay-create %s %q -> %s", e.names[p.src], c13Short(p.ext), e.names[p.tgt]), func() error { return e.handle(ctx, msg) }
 	}
-	switch f {
-	case "create-ext100":
-		if len(e.markets) == 0 {
-			return "", "", nil
-		}
-		o := c13Order{bid: r.Intn(2) == 0, market: e.markets[r.Intn(len(e.markets))], owner: pickOwner().String(), asset: c13Assets[r.Intn(len(c13Assets))], amount: int64(r.Intn(12) + 1), ext: strings.Repeat("h", 100)}
+	mkCreate := func(market uint32, ext string) (string, string, func() error) {
+		o := c13Order{bid: r.Intn(2) == 0, market: market, owner: pickOwner().String(), asset: c13Assets[r.Intn(len(c13Assets))], amount: int64(r.Intn(12) + 1), ext: ext}
 		assets := sdk.Coin{Denom: o.asset, Amount: sdkmath.NewInt(o.amount)}
 		price := sdk.NewInt64Coin("pricecoin", o.amount*3)
 		var msg sdk.Msg
@@ -1181,6 +1232,62 @@ func (e *c13Env) genForced(ctx sdk.Context, view c13View, f string) (string, str
 			msg = &exchange.MsgCreateAskRequest{AskOrder: exchange.AskOrder{MarketId: o.market, Seller: o.owner, Assets: assets, Price: price, AllowPartial: true, ExternalId: o.ext}}
 		}
 		return "XO (OCreate " + e.orderTerm(o) + ")", fmt.Sprintf("create bid=%v m=%d %s %d%s ext=%q", o.bid, o.market, e.names[o.owner], o.amount, o.asset, c13Short(o.ext)), func() error { return e.handle(ctx, msg) }
+	}
+	byExt := func(ext string) (c13Order, bool) {
+		for _, o := range view.orders {
+			if o.market == e.xrMkt && o.ext == ext {
+				return o, true
+			}
+		}
+		return c13Order{}, false
+	}
+	setExt := func(id uint64, x string) (string, string, func() error) {
+		m := e.xrMkt
+		return fmt.Sprintf("XO (OSetExt %d %d %s)", m, id, c13Str(x)), fmt.Sprintf("set-ext m=%d id=%d %q", m, id, c13Short(x)), func() error {
+			return e.handle(ctx, &exchange.MsgMarketSetOrderExternalIDRequest{Admin: e.admin.String(), MarketId: m, OrderId: id, ExternalId: x})
+		}
+	}
+	if strings.HasPrefix(f, "xr-") && len(e.markets) == 0 {
+		return "", "", nil
+	}
+	switch f {
+	case "xr-create": // order A takes the id
+		e.xrMkt = e.markets[r.Intn(len(e.markets))]
+		return mkCreate(e.xrMkt, "reuse1")
+	case "xr-change": // A gives it up: changed or cleared
+		if a, ok := byExt("reuse1"); ok {
+			return setExt(a.id, []string{"", "reuseA"}[r.Intn(2)])
+		}
+		return "", "", nil
+	case "xr-cancel": // ... and is cancelled
+		for _, o := range view.orders {
+			if o.market == e.xrMkt && (o.ext == "reuseA" || o.ext == "") {
+				id := o.id
+				return fmt.Sprintf("XO (OCancel %d)", id), fmt.Sprintf("cancel %d", id), func() error {
+					return e.handle(ctx, &exchange.MsgCancelOrderRequest{Signer: e.admin.String(), OrderId: id})
+				}
+			}
+		}
+		return "", "", nil
+	case "xr-create2": // another order B is created with the id: must be accepted
+		return mkCreate(e.xrMkt, "reuse1")
+	case "xr-create3": // order C
+		return mkCreate(e.xrMkt, "reuseC")
+	case "xr-change2": // B gives the id up again
+		if b, ok := byExt("reuse1"); ok {
+			return setExt(b.id, []string{"", "reuseB"}[r.Intn(2)])
+		}
+		return "", "", nil
+	case "xr-set": // C takes it by set-external-id: must be accepted
+		if c, ok := byExt("reuseC"); ok {
+			return setExt(c.id, "reuse1")
+		}
+		return "", "", nil
+	case "create-ext100":
+		if len(e.markets) == 0 {
+			return "", "", nil
+		}
+		return mkCreate(e.markets[r.Intn(len(e.markets))], strings.Repeat("h", 100))
 	case "pay-empty":
 		return payCreate(c13Pay{src: e.owners[0].String(), ext: "", tgt: e.owners[1].String(), amount: 2})
 	case "pay-x":
